@@ -41,6 +41,7 @@ theorem addArea_eq {r : Rec} {a : AreaT} (h1 : 0 ≤ a.loc.start) (h2 : a.loc.en
   simp only [e1, e2, if_false]
   cases hk : a.kind with
   | proto => rfl
+  | sideProto => rfl
   | cand => rfl
   | sub => rfl
   | region =>
